@@ -763,7 +763,9 @@ func (self PathNode) marshal(p *binary.BinaryProtocol, rootLayer bool, opts *Opt
 					return wrapError(meta.ErrWrite, "PathNode.marshal: append tag failed", err)
 				}
 
-				if wt == proto.VarintType {
+				if kt == proto.SINT32 || kt == proto.SINT64 {
+					err = p.WriteSint64(int64(v.Path.int()))
+				} else if wt == proto.VarintType {
 					err = p.WriteInt64(int64(v.Path.int()))
 				} else if wt == proto.Fixed32Type {
 					err = p.WriteSfixed32(int32(v.Path.int()))
